@@ -10,7 +10,7 @@ Definition rd_table : table :=
 
 Record rd_case : Type := mkrdcase {
   rc_idx : nat; rc_fn : fn; rc_edges : list edge; rc_nodes : list rnode;
-  rc_names : list nanno; rc_defined : list danno }.
+  rc_names : list nanno; rc_defined : list danno; rc_lambdas : list label }.
 
 (* 0 ok | 1 graph | 2 not the fixed point of the generated equations
    | 3 soundness inclusions: neither the node-level ones (hypothesis of the guarded theorem; they cannot hold for an
@@ -19,15 +19,17 @@ Record rd_case : Type := mkrdcase {
    | 7 only: the edge-sensitive (unguarded) inclusions fail: a for header kills its target on the exit edge (known finding) *)
 Definition rd_code (c : rd_case) : nat :=
   let E := rc_edges c in
+  let Ec := contract E (rc_lambdas c) in
   let ns := rc_nodes c in
   let entry := f_args (rc_fn c) in
   let R := reach_fwd E entry in
-  if negb (incl_edges (cfg_fn (rc_fn c)) E) then 1
+  let Rc := reach_fwd Ec entry in
+  if negb (incl_edges (cfg_fn (rc_fn c)) Ec) then 1
   else if negb (rd_fix rd_table E ns R) then 2
-  else if negb (rd_sound E ns entry R || rd_sound_e E ns entry R) then 3
+  else if negb (rd_sound Ec ns entry Rc || rd_sound_e Ec ns entry Rc) then 3
   else if negb (forallb (rd_nanno_ok rd_name_load_reads_in ns) (rc_names c)) then 4
-  else if negb (forallb (rd_danno_ok E ns) (rc_defined c)) then 5
-  else if negb (rd_sound_e E ns entry R) then 7
+  else if negb (forallb (rd_danno_ok Ec ns) (rc_defined c)) then 5
+  else if negb (rd_sound_e Ec ns entry Rc) then 7
   else 0.
 
 Definition rd_failing (cs : list rd_case) : list nat :=
